@@ -134,7 +134,8 @@ def trace_part(prop, insts, V, workdir, samples=3, nproc=None):
                 continue
             seen.add(key)
             win = t["ev"][max(0, l - 4):l]
-            if V.report(dict(clause=clause, site=evname, cls=cfg_class(byid[tid]), what="trace %d event %d (%s): clause %s false" % (tid, l, evname, clause),
+            evt = t["ev"][l - 1] if 1 <= l <= len(t["ev"]) else {}
+            if V.report(dict(clause=clause, site=evname, cls=cfg_class(byid[tid]), retflag="%s/%s" % (evt.get("flag"), evt.get("msgc")), what="trace %d event %d (%s): clause %s false" % (tid, l, evname, clause),
                              instance=dict(kind="solver", inst=byid[tid]), window=win, cfg=t["cfg"])):
                 nviol += 1
     outcomes, classes, counts = {}, set(), {}
@@ -299,6 +300,10 @@ def corpus_C03(tier):
                 inst["prob"] = "zero"
                 inst["abs_tol"] = 10.0
         out.append(inst)
+    for j in range(6 if tier == "quick" else 80):
+        out.append(dict(id=300000 + j, seed=int(rng.integers(0, 2 ** 31 - 1)), n=2, m=3, prob="lin", reg="l1", lam=float(corpus._pick(rng, [0.1, 1.0])), restarts="soft",
+                        maxunsucc=2, incnpt=2, rhoend=1e-2, maxfun=45, mag=float(corpus._pick(rng, [1.0, 5.0])), timeout=300.0,
+                        bounds=corpus._pick(rng, ["none", "both"]), x0place=["in", "in"]))
     # budget sweeps over restart histories in which a LATER run improves on an earlier one (first run stopped early by an
     # aggressive slow-progress test), so that the budget expires at every place of the restarted run
     bases = [dict(n=2, m=2, prob="ros", restarts="hard", maxunsucc=3, rhoend=1e-3, user_params=dict(SLOW)),
